@@ -276,3 +276,19 @@ PROPS['C16'] = dict(
     technique='property-based testing (rapidcheck): invariants over the produced outline (component count, winding, provenance, area identities) + allocator model',
     assumptions=['sets stay away from the poles (planar lat/lng polygon model of the library)'],
 )
+
+PROPS['C17'] = dict(
+    src='props/C17.cpp', variants=['fast', 'asan'], level='fault_enumeration', alloc_copy=True,
+    rule=('(function, input) pairs for compactCells (multi-round sub-trees, partial groups, pentagon families; duplicates / reserved bits / invalid cells), gridDisk and gridDiskDistances (pentagon neighbourhoods and ordinary cells, k<=6), '
+          'areNeighborCells (pairs around pentagons, other resolutions), polygonToCells, polygonToCellsExperimental (4 modes) and maxPolygonToCellsSizeExperimental (polygons with 0-3 holes near/away from pentagons, bad flags, empty loop); '
+          'for each input the number N of allocations is measured and EVERY allocation index 1..N is failed, once alone and once together with all later ones; stratum: all pentagons and their neighbours at all res. '
+          'non-trivial = N >= 2 or an error-path input; distinct by (function, input)'),
+    quick=dict(cases={'fast': 60_000, 'asan': 6_000}, enum={'fast': 4}),
+    thorough=dict(cases={'fast': 1_500_000, 'asan': 100_000}, enum={'fast': 8}),
+    strata=dict(quick=['12 pentagons + neighbours x 16 res: gridDisk/gridDiskDistances k=1..3, areNeighborCells over the k=1 disk, parent-boundary polygon through the three polygon functions x 4 modes'], thorough=['k=1..5']),
+    level_text=('fault enumeration: complete over the allocation index for every generated input (every allocation the call makes is failed in turn, single and sticky); after each run the model allocator must hold no live block and have seen no invalid free, '
+                'the return code must be E_MEMORY_ALLOC; without faults: no live block at return on success and on every error path, and results identical to the default-allocator copy of the library linked into the same binary'),
+    level_note='trusted: the model allocator (engine/allocmodel.hpp) and the two-copies build (H3_PREFIX=va_, H3_ALLOC_PREFIX=verif_, symbols localised with objcopy); complete per input, sampled over inputs',
+    technique='fault injection with exhaustive enumeration of the failing allocation index per generated input (rapidcheck inputs) + allocator model + differential against the default allocator',
+    assumptions=['allocation sequence of a call is deterministic for a fixed input (checked: the planned allocation must be reached)'],
+)
